@@ -31,6 +31,10 @@ func (pass *SanitizeEnumMemberNames) sanitizeEnumMember(member ast.EnumValue) as
 		member.Name = "None"
 	}
 
+	if member.Name == "" {
+		return member
+	}
+
 	if member.Name[0] == '-' {
 		member.Name = tools.UpperCamelCase(fmt.Sprintf("negative%s", member.Name[1:]))
 	}
